@@ -417,13 +417,30 @@ def _execute(doc: dict) -> dict:
     def model_of(mid, for_inst_eq):
         return _make_model(mid, sd, cd, for_inst_eq)
 
+    def collections_of(o):
+        """The two internal lists of recorded blocks, found by content (two
+        list-or-None attributes); None if the object keeps them otherwise."""
+        cands = [(k, v) for k, v in sorted(vars(o).items())
+                 if (isinstance(v, list) or v is None)
+                 and "collect" in k.lower()]
+        lists = [v for _, v in cands]
+        if len(lists) != 2:
+            return "unknown", "unknown"
+        a, b = lists
+        if a is None or b is None or not a:
+            return (a, b)
+        # (state, control) rows are wider than the differential rows
+        if a[0].shape[1] < b[0].shape[1]:
+            a, b = b, a
+        return a, b
+
     def obj_blocks():
-        sc = getattr(obj, "_FigureOfMerit__collection_sc")
-        df = getattr(obj, "_FigureOfMerit__collection_df")
-        return sc, df
+        return collections_of(obj)
 
     def check_ledger(after: str) -> bool:
         sc, df = obj_blocks()
+        if isinstance(sc, str):
+            return True     # internals not visible: decided at the ops only
         if not supports:
             if sc is not None or df is not None:
                 core.violation(res, "collects-without-model-support",
@@ -480,10 +497,11 @@ def _execute(doc: dict) -> dict:
                 break
             fresh_blocks = []
             if supports and mode == "raw":
-                fsc = getattr(fresh, "_FigureOfMerit__collection_sc")
-                fdf = getattr(fresh, "_FigureOfMerit__collection_df")
-                fresh_blocks = [(np.array(a), np.array(b))
-                                for a, b in zip(fsc, fdf)]
+                try:
+                    gsc, gdf = fresh.get_differentials()
+                    fresh_blocks = [(np.array(gsc), np.array(gdf))]
+                except ValueError:
+                    fresh_blocks = []   # nothing was recorded
             # ---- the object under test
             try:
                 v = obj.evaluate(x)
